@@ -435,8 +435,12 @@ def run(res, tier, seed, replay):
              "repository with its packages as shipped / one missing / replaced by another component / corrupted / "
              "truncated / swapped / replaced by a core module, with a mutated document, ~430 multi-statement documents whose diagnostics must REFER BACK to earlier "
              "statements (every ordered pairing of the ways a name can be exported or defined -- spread, `as`, inferred, "
-             "type / record / interface / world -- plus duplicate imports, lets, arguments given twice), generated "
-             "documents without packages, and the scenario corpus corpus/C14 (known-finding witnesses); resolve, then encode, then "
+             "type / record / interface / world -- plus duplicate imports, lets, arguments given twice), libraries of 3-4 components importing ONE "
+             "interface at 3+ versions of a semver track (and mixed tracks) instantiated with `...` in every order, "
+             "components whose import / export names use every extern-name form wasmparser accepts (kebab, interface "
+             "ids, url=, relative-url=, locked-dep= with/without integrity=, unlocked-dep=, integrity=) instantiated "
+             "with identifier-named / inferred / string-named arguments, spreads and access expressions whose "
+             "identifiers are the words of those names, generated documents without packages, and the scenario corpus corpus/C14 (known-finding witnesses); resolve, then encode, then "
              "Package::from_bytes on the encoder's output. Each input runs in a supervised worker process (per-input "
              "timeout, restart on death). non-trivial = distinct text parsed beyond its first token (accepted with a "
              "statement, or rejected at an offset > 0), byte string that passes the component-header test, pairing "
